@@ -87,8 +87,16 @@ func LockOps(fn *ssa.Function) []LockOp {
 // every path reaching it (must-analysis). A deferred unlock keeps the lock held up to
 // the exit. Read locks are reported as "R:"+lock.
 func HeldAt(fn *ssa.Function) map[ssa.Instruction]map[string]bool {
+	if entryHeldOf != nil {
+		return HeldAtFrom(fn, entryHeldOf(fn))
+	}
 	return HeldAtFrom(fn, nil)
 }
+
+// entryHeldOf (installed by Load) gives the locks every static caller of a helper holds
+// when calling it, so that a helper documented as "called with the mutex held" is
+// analysed with that lock.
+var entryHeldOf func(*ssa.Function) map[string]bool
 
 // HeldAtFrom is HeldAt with a set of locks assumed to be held at the function entry.
 func HeldAtFrom(fn *ssa.Function, entry map[string]bool) map[ssa.Instruction]map[string]bool {
